@@ -174,7 +174,58 @@ pub fn main(args: &Args) -> i32 {
         handles.into_iter().map(|h| h.join().expect("worker")).collect()
     });
     for r in reports { rep.absorb(r); }
+    if args.wants("C06") { stale_during_run(&mut rep, &factory); }
     rep.write(args)
+}
+
+/// C06, the time at which staleness is judged: the manifest of ca2 is current when the run starts and past its
+/// nextUpdate when the publication point is looked at (its repository takes four seconds to transfer).  Under
+/// `reject` the CA must contribute nothing - what is served after the run would be stale from the start; under
+/// `accept` it is processed.  (PubPoint.tla: `stale` is a property of the version at the moment it is looked at.)
+fn stale_during_run(rep: &mut Report, factory: &Arc<Factory>) {
+    for reject in [true, false] {
+        let bed = TestBed::new();
+        let mut ta = Ca::new("ca1", None, 0, &format!("{TA_REPO}ca1/"));
+        ta.prefixes = vec!["10.0.0.0/8".into()];
+        ta.asns = vec![(64000, 65000)];
+        ta.objects.push(Obj { name: "t1.roa".into(), kind: ObjKind::Roa { asn: 64501, prefixes: vec![("10.1.0.0/16".into(), 16)] },
+            serial: 11, validity: (-2, 48), fault: Fault::None });
+        let mut ca = Ca::new("ca2", Some(0), 1, &format!("{CA_REPO}ca2/"));
+        ca.prefixes = vec!["10.2.0.0/16".into()];
+        ca.asns = vec![(64000, 65000)];
+        let drift = chrono::Utc::now().timestamp() - factory.now.timestamp();
+        ca.mft.next_update_secs = drift + 3;          // three seconds from now
+        ca.objects.push(Obj { name: "c1.roa".into(), kind: ObjKind::Roa { asn: 64502, prefixes: vec![("10.2.0.0/16".into(), 16)] },
+            serial: 12, validity: (-2, 48), fault: Fault::None });
+        let world = World { tals: vec![Tal { name: "tal1".into(), ca: 0, uris: vec![(format!("{TA_REPO}ta1.cer"), TaVariant::Good)] }], cas: vec![ta, ca] };
+        bed.publish(&world.build(factory));
+        bed.delay_module(CA_REPO, Some(4000));
+        let mut cfg = bed.config();
+        cfg.stale = if reject { FilterPolicy::Reject } else { FilterPolicy::Accept };
+        cfg.validation_threads = 1;
+        let t0 = std::time::Instant::now();
+        let res = run_once(&cfg, true, &LocalExceptions::empty());
+        let took = t0.elapsed().as_millis() as u64;
+        let ctx = json!({"scenario": "manifest of ca2 passes its nextUpdate while its repository is being transferred (3 s / 4 s)",
+                         "policy": if reject { "reject" } else { "accept" }});
+        let payload = match res { Ok(r) => all_payload(&r.payload), Err(e) => { rep.divergence("C06", format!("stale-during-run: run failed {e:?}")); continue } };
+        let ca_served = payload.iter().any(|l| l.ends_with("AS64502"));
+        let ta_served = payload.iter().any(|l| l.ends_with("AS64501"));
+        rep.eval("C06");
+        if took < 3500 || !ta_served {
+            rep.divergence("C06", format!("stale-during-run: not realised (run took {took} ms, TA payload served: {ta_served})"));
+            continue
+        }
+        rep.nontrivial("C06", format!("stale-during-run|{reject}"));
+        if reject && ca_served {
+            rep.violation("C06", "stale-when-looked-at-served",
+                "the manifest was past its nextUpdate when the publication point was validated, the policy is reject, yet the CA contributes payload",
+                ctx.clone(), json!({"served": payload, "run_ms": took}));
+        }
+        if !reject && !ca_served {
+            rep.violation("C06", "stale-dropped-under-accept", "the policy is accept, yet the stale CA contributes nothing", ctx, json!({"served": payload}));
+        }
+    }
 }
 
 fn one(rep: &mut Report, bed: &TestBed, factory: &Arc<Factory>, b: &Value, idx: usize, args: &Args) {
